@@ -38,6 +38,8 @@ pub struct ConfOpts {
     pub rich_hits: bool,
     /// OB chip ids fixed to 0..6 / 8..14 with 7 chips (for custom checks)
     pub ob_standard_chips: bool,
+    /// a lane may announce a fatal state (APE) and then stays away from all later frames of the link
+    pub allow_fatal_lanes: bool,
 }
 
 impl Default for ConfOpts {
@@ -52,6 +54,7 @@ impl Default for ConfOpts {
             format: None,
             rich_hits: false,
             ob_standard_chips: false,
+            allow_fatal_lanes: false,
         }
     }
 }
@@ -228,6 +231,7 @@ fn gen_conf_link(t: &mut Tape, lp: &LinkParams, o: &ConfOpts, n_hbf: usize, labe
     let mut cdw_index: u32 = 0;
     // every non-continuation TDH since the last frame close (the tool opens a frame at the first of them)
     let mut pending_nodata_start: Vec<(usize, usize)> = vec![];
+    let mut fatal_lanes: Vec<u8> = vec![];
     for _h in 0..n_hbf {
         orbit = orbit.wrapping_add(1 + t.below(3) as u32 * t.below(1000) as u32);
         let trg = gen_trigger_type(t);
@@ -346,7 +350,15 @@ fn gen_conf_link(t: &mut Tape, lp: &LinkParams, o: &ConfOpts, n_hbf: usize, labe
             }
             first_on_page = false;
             let fbc = t.u8();
-            let lanes = gen_conf_lanes(t, lp.barrel, &lp.lane_ids, fbc, o);
+            let live_ids: Vec<u8> = lp.lane_ids.iter().copied().filter(|id| !fatal_lanes.contains(id)).collect();
+            let mut lanes = gen_conf_lanes(t, lp.barrel, &live_ids, fbc, o);
+            if o.allow_fatal_lanes && lanes.len() >= 2 && t.chance(1, 40) {
+                // the announcing frame still carries the lane; later frames do not
+                let i = t.below(lanes.len());
+                lanes[i].fatal_ape = Some(*t.pick(&alpide::APE_FATAL));
+                fatal_lanes.push(lanes[i].id);
+                labels.push("fatal_lane_announced".into());
+            }
             let dws = interleave_lanes(t, &lanes);
             // split over pages?
             let n_splits = if is_last && false { 0 } else { t.weighted(&[6, 3, 1]) };
